@@ -113,6 +113,9 @@ def run(ctx):
             h = model.gen_staged_history(rng)
             staged = True
             ctx.count("c05.staged_cases")
+        if idx % 7 == 3 and len(h["commits"]) > 1:
+            h["front"] = "serialmp-optimize"     # see vf.model.build
+            ctx.count("c05.serialmp_optimize_builds")
         wname, wobj = gen_weighting(rng)
         wb = {"history": {"commits": [len(c) for c in h["commits"]], "deletes": len(h["deletes"]),
                           "blocklimit": h["blocklimit"], "storage": h["storage"]}, "case_idx": idx, "weighting": wname}
